@@ -256,9 +256,11 @@ def commit_failure(case: int, mv: int, sv: int) -> str:
     The commit itself fails: 0 a pre_commit_handler raises, 1 a context state handed to add_state carries a handle that
     already exists (the unique index rejects it while the tables are being updated), 2 a context state is deleted through the
     entity interface (write_entity with a handle removed from entity.states) together with an update of another state,
-    3 the same deletion through a DESCRIPTOR transaction (write_entity of the multi-state entity) together with a descriptor update.
-    If the commit raises, nothing may have changed; if it succeeds, it must have been applied completely.
-    pre: 0 <= case <= 3
+    3 the same deletion through a DESCRIPTOR transaction (write_entity of the multi-state entity) together with a descriptor update,
+    4 descriptor transaction: get_descriptor(m0) + add_state(a second state for m0), 5 descriptor transaction: entity of pc0 with
+    a new state that uses the handle of lc0's state, written with write_entity.
+    If the call or the commit raises, nothing may have changed; if it succeeds, it must have been applied completely.
+    pre: 0 <= case <= 5
     pre: mv >= 0
     pre: sv >= 0
     post: __return__ == 'ok'
@@ -283,6 +285,17 @@ def commit_failure(case: int, mv: int, sv: int) -> str:
                     dup = k.mk_context_state(pm, pm.descriptions.handle.get_one('lc0'), 'lcs0', CA.NO_ASSOCIATION)
                     dup.descriptor_container = None
                     tr.add_state(dup)
+            elif case == 4:
+                with pm.descriptor_transaction() as tr:
+                    d = tr.get_descriptor('m0')
+                    d.SafetyClassification = pm_types.SafetyClassification.MED_B
+                    tr.add_state(pm.data_model.get_state_class_for_descriptor(d)(d))
+            elif case == 5:
+                ent = pm.entities.by_handle('pc0')
+                ent.descriptor.SafetyClassification = pm_types.SafetyClassification.MED_A
+                ent.new_state('lcs0')
+                with pm.descriptor_transaction() as tr:
+                    tr.write_entity(ent)
             elif case == 3:
                 ent = pm.entities.by_handle('lc0')
                 del ent.states['lcs0']
@@ -307,6 +320,7 @@ def commit_failure(case: int, mv: int, sv: int) -> str:
             orc.check(after['version'][0] == mv + 1, 'commit-without-version-increment')
             orc.check(after['none_in_tables'] == (False, False, False), 'None-in-table')
             orc.check(_idx_ok(pm), 'index!=scan')
+            orc.check(case not in (4, 5), 'duplicate-state-key-accepted-and-committed')
             if case in (2, 3):
                 orc.check('lcs0' not in after['context_states'], 'deleted-context-state-still-present')
             if case == 2:
@@ -434,6 +448,33 @@ def _caught_body(pm, case, val, with_rejected):
                     tr.write_entities([e0, e1])     # e1 is already in the updated set
                 except Exception:  # noqa: BLE001
                     raised = True
+    elif case == 7:
+        from sdc11073.mdib import descriptorcontainers as dc
+        with pm.descriptor_transaction() as tr:
+            tr.get_descriptor('m1').SafetyClassification = pm_types.SafetyClassification.MED_A
+            if with_rejected:
+                nd = dc.StringMetricDescriptorContainer('m9', 'ch0')
+                nd.Unit = pm_types.CodedValue('u')
+                nd.MetricCategory = pm_types.MetricCategory.MEASUREMENT
+                nd.MetricAvailability = pm_types.MetricAvailability.CONTINUOUS
+                other = pm.states.descriptor_handle.get_one('m0').mk_copy()      # a state of ANOTHER descriptor
+                try:
+                    tr.add_descriptor(nd, state_container=other)
+                except Exception:  # noqa: BLE001
+                    raised = True
+    elif case == 8:
+        good = pm.entities.by_handle('m0')
+        good.state.MetricValue.Value = val
+        stale = pm.entities.new_entity(pm.data_model.pm_names.StringMetricDescriptor, 'never_written', 'ch0')
+        with pm.metric_state_transaction(set_determination_time=False) as tr:
+            st = tr.get_state('m1')
+            st.mk_metric_value()
+            st.MetricValue.Value = val
+            if with_rejected:
+                try:
+                    tr.write_entities([good, stale])      # the second entity has no descriptor in the mdib
+                except Exception:  # noqa: BLE001
+                    raised = True
     else:
         with pm.context_state_transaction() as tr:
             st = tr.get_context_state('pcs0')
@@ -456,8 +497,9 @@ def rejected_call_caught(case: int, mv: int, sv: int, val: str) -> str:
     the rejected call, run on an identical second MDIB. 0 metric write_entities([valid, wrong state type]), 1 metric
     write_entities([valid, multi-state entity]), 2 alert write_entities([valid, wrong type]), 3 context write_entity(entity,
     [valid handle, unknown handle]), 4 descriptor write_entities([new, already written]), 5 mk_context_state with an existing
-    handle, 6 get_context_state of an unknown handle.
-    pre: 0 <= case <= 6
+    handle, 6 get_context_state of an unknown handle, 7 add_descriptor with the state of another descriptor, 8 metric
+    write_entities([valid, entity whose descriptor is not in the mdib]).
+    pre: 0 <= case <= 8
     pre: mv >= 0
     pre: sv >= 0
     pre: len(val) <= 2
@@ -532,6 +574,73 @@ def isolation_after_update(kind: int, mv: int, sv: int, val: str, val2: str) -> 
             ent.descriptor.Unit.Code = val2
             ent.state.MetricValue.Value = val2
         _same(pm, orc, after_commit, 'write-to-updated-entity-changed-mdib')
+    except Exception as ex:  # noqa: BLE001
+        return exc_result(orc, ex)
+    return orc.result()
+
+
+def isolation_descriptor(kind: int, mv: int, dv: int, val: str, val2: str) -> str:
+    """
+    After a committed descriptor update, writing into the objects the application still holds must not change the MDIB nor what
+    was published: 0 the descriptor returned by get_descriptor (nested member Unit.Code, list member BodySite-like Relation /
+    Type), 1 the entity written with write_entity, 2 the descriptor inside the published transaction result (descr_updated),
+    3 the descriptor inside the result of a CREATE (descr_created).
+    pre: 0 <= kind <= 3
+    pre: mv >= 0
+    pre: dv >= 0
+    pre: len(val) <= 2
+    pre: len(val2) <= 2
+    post: __return__ == 'ok'
+    """
+    orc = Oracle()
+    try:
+        if val == val2:
+            return 'ok'
+        pm, cap = _mk(mv, 0)
+        d0 = pm.descriptions.handle.get_one('m0')
+        d0.DescriptorVersion = dv
+        pm.states.descriptor_handle.get_one('m0').DescriptorVersion = dv
+        results = []
+        from sdc11073 import observableproperties as properties
+
+        def obs(tr_result):
+            results.append(tr_result)
+        properties.bind(pm, transaction=obs)
+        if kind in (0, 2):
+            with pm.descriptor_transaction() as tr:
+                held = tr.get_descriptor('m0')
+                held.Unit.Code = val
+                held.Unit.Translation = [pm_types.T_Translation('t1')] if hasattr(pm_types, 'T_Translation') else held.Unit.Translation
+        elif kind == 1:
+            ent = pm.entities.by_handle('m0')
+            ent.descriptor.Unit.Code = val
+            with pm.descriptor_transaction() as tr:
+                tr.write_entity(ent)
+            held = ent.descriptor
+        else:
+            from sdc11073.mdib import descriptorcontainers as dc
+            held = dc.StringMetricDescriptorContainer('m9', 'ch0')
+            held.Unit = pm_types.CodedValue(val)
+            held.MetricCategory = pm_types.MetricCategory.MEASUREMENT
+            held.MetricAvailability = pm_types.MetricAvailability.CONTINUOUS
+            with pm.descriptor_transaction() as tr:
+                tr.add_descriptor(held, state_container=pm.data_model.get_state_class_for_descriptor(held)(held))
+        target = 'm9' if kind == 3 else 'm0'
+        after_commit = _snap(pm)
+        orc.check(pm.descriptions.handle.get_one(target).Unit.Code == val, 'committed-descriptor-does-not-carry-the-value')
+        published = [d for d in (results[0].descr_created if kind == 3 else results[0].descr_updated) if d.Handle == target]
+        orc.check(len(published) == 1 and published[0].Unit.Code == val, 'published-descriptor-does-not-carry-the-value')
+        if kind in (0, 1):
+            held.Unit.Code = val2
+            held.Unit.Translation.append(pm_types.T_Translation('t2')) if hasattr(pm_types, 'T_Translation') else None
+        else:
+            published[0].Unit.Code = val2
+        now = _snap(pm)
+        orc.check(now['descriptors'] == after_commit['descriptors'] and now['states'] == after_commit['states'],
+                  'post-commit-write-to-handed-out-descriptor-changed-mdib:' + ('transaction-descriptor', 'entity', 'transaction-result',
+                                                                               'transaction-result-created')[kind])
+        if kind in (0, 1) and published:
+            orc.check(published[0].Unit.Code == val, 'published-descriptor-changed-by-later-write')
     except Exception as ex:  # noqa: BLE001
         return exc_result(orc, ex)
     return orc.result()
